@@ -1,12 +1,27 @@
 /-
   Props/C03.lean — C03: a step's position map describes exactly what the step did to the document.
-  Token-level semantics of the steps: Proofs/StepToks.lean.  Helper lemmas: Proofs/StepMap.lean.
+  Token-level semantics of the steps: Proofs/StepToks.lean.  Helper lemmas: Proofs/StepMap.lean,
+  Proofs/StepMapLeft.lean (either association side, closed forms), Proofs/StepMapHist.lean (the
+  `deleted` flag read off the ranges, the two sides compared, `Mapping._map` as the folds of
+  PM/MapFold.lean).
+
+  Layout: single steps, right side (`assoc = 1`) → every step kind → whole histories (`Tr.run`) →
+  the other side (`assoc = -1`) for single steps, every step kind, whole histories → the `deleted`
+  flag of `map_result` (one map, one step, a mapping, a transform) → monotonicity → the side
+  conditions as executable guards and for the steps lift / wrap / set_node_markup build → size delta
+  and "a surviving token keeps width one" → histories as such (`Hist`: hypotheses on the recorded
+  steps only) → a concrete two-step history.
 -/
 import PM.Step
 import PM.Transform
+import PM.StructEdit
+import PM.TypePlan
+import Proofs.StructEdit
 import Proofs.StepToks
 import Proofs.StepMap
 import Proofs.StepMapLeft
+import Proofs.StepMapHist
+import Props.C08
 namespace PM.C03
 open PM
 
@@ -620,5 +635,939 @@ example :
     let m := (Step.replace 3 3 ⟨[.text [120, 121] []], 0, 0⟩ false).getMap
     m.map 3 (-1) = 3 ∧ m.map 3 1 = 5 ∧ m.map 2 (-1) = 2 ∧ m.map 2 1 = 2 ∧ m.map 4 (-1) = 6 ∧ m.map 4 1 = 6 := by
   decide
+
+/-! ### the left side (`assoc = -1`) for every step kind and along a whole history -/
+
+/-- the part of `AroundOK` the left side needs: a well-formed slice, `insert ≤ size`, the gap inside
+    the step's range.  (The degenerate empty gap of `replaceAround_map_faithful` is harmless here:
+    with `assoc = -1` a position at the start of an empty range stays before the inserted content.) -/
+def AroundWF : Step → Prop
+  | .replaceAround f t gf gt sl ins _ =>
+    sl.wf = true ∧ (ins : Int) ≤ sl.size ∧ (f ≤ gf ∧ gf ≤ gt ∧ gt ≤ t)
+  | _ => True
+
+theorem AroundOK.toWF {st : Step} (h : AroundOK st) : AroundWF st := by
+  cases st <;> first | trivial | exact ⟨h.1, h.2.1, h.2.2.1⟩
+
+/-- **every step kind, every position, left side**: a position `0 < p ≤ size` whose *preceding*
+    token (`p − 1`) lies outside the changed ranges of the step's map is mapped with `assoc = -1` to
+    a position `0 < q ≤ size'` of the new document, and the token before `q` has the same structure
+    and text as the token before `p` — the same token for replace and replace-around steps -/
+theorem mapped_position_every_step_left (S : Schema) (doc doc' : Node) (st : Step) (hok : AroundWF st)
+    (h : S.apply st doc = .ok doc') (p : Nat) (hp0 : 0 < p) (hp : p ≤ fsize doc.kids)
+    (hout : outside st.getMap ((p : Int) - 1)) :
+    0 < st.getMap.map p (-1) ∧ (st.getMap.map p (-1)).toNat ≤ fsize doc'.kids ∧
+    ((ftoks doc'.kids)[(st.getMap.map p (-1)).toNat - 1]?).map Tok.shape =
+      ((ftoks doc.kids)[p - 1]?).map Tok.shape ∧
+    (IsReplaceFamily st →
+      (ftoks doc'.kids)[(st.getMap.map p (-1)).toNat - 1]? = (ftoks doc.kids)[p - 1]?) := by
+  have fam : 0 < st.getMap.map p (-1) →
+      (ftoks doc'.kids)[(st.getMap.map p (-1)).toNat - 1]? = (ftoks doc.kids)[p - 1]? →
+      0 < st.getMap.map p (-1) ∧ (st.getMap.map p (-1)).toNat ≤ fsize doc'.kids ∧
+      ((ftoks doc'.kids)[(st.getMap.map p (-1)).toNat - 1]?).map Tok.shape =
+        ((ftoks doc.kids)[p - 1]?).map Tok.shape ∧
+      (IsReplaceFamily st →
+        (ftoks doc'.kids)[(st.getMap.map p (-1)).toNat - 1]? = (ftoks doc.kids)[p - 1]?) := by
+    intro h0 key
+    have hsome : (ftoks doc.kids)[p - 1]? = some ((ftoks doc.kids)[p - 1]'(by rw [ftoks_length]; omega)) :=
+      List.getElem?_eq_getElem _
+    have hq : (st.getMap.map p (-1)).toNat - 1 < (ftoks doc'.kids).length := by
+      rcases Nat.lt_or_ge ((st.getMap.map p (-1)).toNat - 1) (ftoks doc'.kids).length with h' | h'
+      · exact h'
+      · rw [List.getElem?_eq_none h', hsome] at key; simp at key
+    rw [ftoks_length] at hq
+    exact ⟨h0, by omega, by rw [key], fun _ => key⟩
+  have mk : (∀ f t sl b, st ≠ .replace f t sl b) → (∀ f t gf gt sl i b, st ≠ .replaceAround f t gf gt sl i b) →
+      0 < st.getMap.map p (-1) ∧ (st.getMap.map p (-1)).toNat ≤ fsize doc'.kids ∧
+      ((ftoks doc'.kids)[(st.getMap.map p (-1)).toNat - 1]?).map Tok.shape =
+        ((ftoks doc.kids)[p - 1]?).map Tok.shape := by
+    intro hk hk'
+    obtain ⟨_, hsh, hmap⟩ := markup_steps_empty_map S doc doc' st hk hk' h
+    have hlen : fsize doc'.kids = fsize doc.kids := by
+      have := congrArg List.length hsh
+      simpa [ftoks_length] using this
+    rw [hmap p (-1), Int.toNat_natCast]
+    refine ⟨by omega, by omega, ?_⟩
+    rw [← List.getElem?_map, ← List.getElem?_map, hsh]
+  cases st with
+  | replace f t sl b =>
+    have hp' : p ≤ f ∨ t < p := by
+      have := hout ((f : Int), (t : Int) - f, sl.size) (by simp [Step.getMap])
+      simp only at this
+      omega
+    obtain ⟨h0, key⟩ := mapped_position_same_content_left S doc doc' f t sl b h p hp0 hp' hp
+    exact fam h0 key
+  | replaceAround f t gf gt sl ins b =>
+    obtain ⟨hwf, hins, hg⟩ := hok
+    have hp' : p ≤ f ∨ (gf < p ∧ p ≤ gt) ∨ t < p := by
+      have a := hout ((f : Int), (gf : Int) - f, (ins : Int)) (by simp [Step.getMap])
+      have b := hout ((gt : Int), (t : Int) - gt, sl.size - ins) (by simp [Step.getMap])
+      simp only at a b
+      omega
+    obtain ⟨h0, key⟩ := mapped_position_same_content_around_left S doc doc' f t gf gt sl ins b hwf hins hg h
+      p hp0 hp' hp
+    exact fam h0 key
+  | addMark f t m =>
+    have m := mk (by intros; simp) (by intros; simp)
+    exact ⟨m.1, m.2.1, m.2.2, fun hc => hc.elim⟩
+  | removeMark f t m =>
+    have m := mk (by intros; simp) (by intros; simp)
+    exact ⟨m.1, m.2.1, m.2.2, fun hc => hc.elim⟩
+  | addNodeMark pos m =>
+    have m := mk (by intros; simp) (by intros; simp)
+    exact ⟨m.1, m.2.1, m.2.2, fun hc => hc.elim⟩
+  | removeNodeMark pos m =>
+    have m := mk (by intros; simp) (by intros; simp)
+    exact ⟨m.1, m.2.1, m.2.2, fun hc => hc.elim⟩
+  | attr pos n v =>
+    have m := mk (by intros; simp) (by intros; simp)
+    exact ⟨m.1, m.2.1, m.2.2, fun hc => hc.elim⟩
+  | docAttr n v =>
+    have m := mk (by intros; simp) (by intros; simp)
+    exact ⟨m.1, m.2.1, m.2.2, fun hc => hc.elim⟩
+
+/-- the token *before* the position stays outside the changed ranges of every map of the history,
+    the position followed along it with `assoc = -1` -/
+def OutsideAllL : List StepMap → Int → Prop
+  | [], _ => True
+  | m :: ms, p => outside m (p - 1) ∧ OutsideAllL ms (m.map p (-1))
+
+/-- `mapAll` is the fold of PM/MapFold.lean for `assoc = 1` -/
+theorem mapAll_eq_mapFold (ms : List StepMap) (p : Int) : mapAll ms p = mapFold ms 1 p := rfl
+
+/-- **`Transform.mapping` maps by folding the step maps with the asked side — both sides**
+    (`Mapping.map` of a mapping over the recorded maps, no mirrors) -/
+theorem mapping_map_eq_mapFold (ms : List StepMap) (p a : Int) :
+    (Mapping.ofMaps ms).map p a = some (mapFold ms a p) := ofMaps_map ms p a
+
+/-- … and so does `Mapping.map_result`: the position is the same fold, the deletion info the bits
+    gathered along the way -/
+theorem mapping_mapResult_eq_folds (ms : List StepMap) (p a : Int) :
+    (Mapping.ofMaps ms).mapResult p a = some { pos := mapFold ms a p, delInfo := delFold ms a p 0 } :=
+  ofMaps_mapResult ms p a
+
+/-- what is claimed of one stretch of history on the left side: the token before the mapped position -/
+def SameBefore (d d' : Node) (steps : List Step) (p : Nat) (q : Int) : Prop :=
+  0 < q ∧ q.toNat ≤ fsize d'.kids ∧
+  ((ftoks d'.kids)[q.toNat - 1]?).map Tok.shape = ((ftoks d.kids)[p - 1]?).map Tok.shape ∧
+  ((∀ st ∈ steps, IsReplaceFamily st) → (ftoks d'.kids)[q.toNat - 1]? = (ftoks d.kids)[p - 1]?)
+
+theorem run_same_before (S : Schema) : ∀ (sts : List Step) (tr : Tr), (∀ st ∈ sts, AroundWF st) →
+    ∃ new : List Step, (tr.run S sts).steps = tr.steps ++ new ∧
+      (tr.run S sts).maps = tr.maps ++ new.map Step.getMap ∧
+      ∀ p : Nat, 0 < p → p ≤ fsize tr.doc.kids → OutsideAllL (new.map Step.getMap) p →
+        SameBefore tr.doc (tr.run S sts).doc new p (mapFold (new.map Step.getMap) (-1) p)
+  | [], tr, _ => by
+    refine ⟨[], by simp [Tr.run], by simp [Tr.run], fun p hp0 hp _ => ?_⟩
+    simp only [Tr.run, List.foldl_nil, List.map_nil, mapFold_nil, SameBefore, Int.toNat_natCast]
+    exact ⟨by omega, hp, trivial, fun _ => trivial⟩
+  | st :: sts, tr, hok => by
+    have hok' : ∀ s ∈ sts, AroundWF s := fun s hs => hok s (List.mem_cons_of_mem _ hs)
+    have hrun : tr.run S (st :: sts) = (tr.maybeStep S st).run S sts := by simp [Tr.run]
+    rw [hrun]
+    cases happ : S.apply st tr.doc with
+    | error e =>
+      have : tr.maybeStep S st = tr := by simp [Tr.maybeStep, happ]
+      rw [this]
+      exact run_same_before S sts tr hok'
+    | ok d1 =>
+      have h1 : tr.maybeStep S st = tr.addStep st d1 := by simp [Tr.maybeStep, happ]
+      rw [h1]
+      obtain ⟨new, e1, e2, e3⟩ := run_same_before S sts (tr.addStep st d1) hok'
+      refine ⟨st :: new, by simpa [Tr.addStep] using e1, by simpa [Tr.addStep] using e2,
+        fun p hp0 hp hout => ?_⟩
+      simp only [List.map_cons, OutsideAllL] at hout
+      obtain ⟨ho1, ho2⟩ := hout
+      obtain ⟨s1, s2, s3, s4⟩ := mapped_position_every_step_left S tr.doc d1 st (hok st List.mem_cons_self)
+        happ p hp0 hp ho1
+      have hq : ((st.getMap.map p (-1)).toNat : Int) = st.getMap.map p (-1) := Int.toNat_of_nonneg (by omega)
+      have ih := e3 (st.getMap.map p (-1)).toNat (by omega) (by simpa [Tr.addStep] using s2)
+        (by rw [hq]; exact ho2)
+      rw [hq] at ih
+      obtain ⟨i1, i2, i3, i4⟩ := ih
+      simp only [Tr.addStep] at i3 i4
+      rw [List.map_cons, mapFold_cons]
+      refine ⟨i1, i2, i3.trans s3, fun hall => ?_⟩
+      exact (i4 (fun s hs => hall s (List.mem_cons_of_mem _ hs))).trans (s4 (hall st List.mem_cons_self))
+
+/-- **Transform level, left side**: over any list of attempted steps, the transform's mapping sends
+    (with `assoc = -1`) a position whose preceding token stays outside every recorded step's changed
+    ranges to a position `0 < q ≤ size` of the final document with a token of the same structure and
+    text before it — the same token when only replace / replace-around steps were recorded -/
+theorem transform_mapped_position_same_content_left (S : Schema) (doc : Node) (sts : List Step)
+    (hok : ∀ st ∈ sts, AroundWF st) (p : Nat) (hp0 : 0 < p) (hp : p ≤ fsize doc.kids)
+    (hout : OutsideAllL ((Tr.init doc).run S sts).maps p) :
+    ∃ q : Nat, 0 < q ∧ (Mapping.ofMaps ((Tr.init doc).run S sts).maps).map p (-1) = some (q : Int) ∧
+      q ≤ fsize ((Tr.init doc).run S sts).doc.kids ∧
+      ((ftoks ((Tr.init doc).run S sts).doc.kids)[q - 1]?).map Tok.shape =
+        ((ftoks doc.kids)[p - 1]?).map Tok.shape ∧
+      ((∀ st ∈ ((Tr.init doc).run S sts).steps, IsReplaceFamily st) →
+        (ftoks ((Tr.init doc).run S sts).doc.kids)[q - 1]? = (ftoks doc.kids)[p - 1]?) := by
+  obtain ⟨new, e1, e2, e3⟩ := run_same_before S sts (Tr.init doc) hok
+  replace e1 : ((Tr.init doc).run S sts).steps = new := by simpa [Tr.init] using e1
+  replace e2 : ((Tr.init doc).run S sts).maps = new.map Step.getMap := by simpa [Tr.init] using e2
+  rw [e2] at hout ⊢
+  rw [e1]
+  obtain ⟨s1, s2, s3, s4⟩ := e3 p hp0 hp hout
+  refine ⟨(mapFold (new.map Step.getMap) (-1) p).toNat, by omega, ?_, s2, s3, s4⟩
+  rw [mapping_map_eq_mapFold, Int.toNat_of_nonneg (by omega)]
+
+/-! ### the `deleted` flag of `map_result` -/
+
+theorem wf_iff_rwf : ∀ (rs : List Range) (lo : Int), C08.WF lo rs ↔ RWF lo rs
+  | [], _ => Iff.rfl
+  | r :: rest, lo => by simp only [C08.WF, RWF, wf_iff_rwf rest]
+
+/-- `coversSide` is the negation of `outside` for the token on the asked side -/
+theorem covers_false_iff_outside (m : StepMap) (a p : Int) :
+    m.coversSide a p = false ↔ outside m (sideTok a p) := by
+  simp only [StepMap.coversSide, List.any_eq_false, Bool.and_eq_true, decide_eq_true_eq, outside]
+  constructor
+  · intro h r hr; have := h r hr; omega
+  · intro h r hr; have := h r hr; omega
+
+/-- **one map, both sides** (a stored, sorted map): `map_result(pos, assoc).deleted` is true iff a
+    replaced range covers the token on the asked side of `pos` — the token before it for
+    `assoc < 0`, the token after it otherwise.  For the right side no range may end where a range
+    with a non-empty old side starts (`noTouch`); `deleted_right_needs_noTouch` below shows why.
+    (`C08.deleted_spec` is the same statement in range coordinates.) -/
+theorem deleted_iff_covered (m : StepMap) (hinv : m.inverted = false) (hwf : C08.WF 0 m.ranges)
+    (p a : Int) (hside : a < 0 ∨ m.noTouch = true) :
+    (m.mapResult p a).deleted = true ↔ ¬ outside m (sideTok a p) := by
+  rw [StepMap.deleted_eq_covers m hinv ((wf_iff_rwf _ _).1 hwf) p a hside, ← covers_false_iff_outside]
+  cases m.coversSide a p <;> simp
+
+/-- the map of a successfully applied step is stored (not inverted) and sorted -/
+theorem step_map_wf (S : Schema) (doc doc' : Node) (st : Step) (hok : AroundWF st)
+    (h : S.apply st doc = .ok doc') : st.getMap.inverted = false ∧ C08.WF 0 st.getMap.ranges := by
+  cases st with
+  | replace f t sl b =>
+    obtain ⟨_, hft, _, hwf⟩ := apply_replace_facts S doc doc' f t sl b h
+    have hs0 : 0 ≤ sl.size := by have := Slice.toks_length_int sl hwf; omega
+    exact ⟨rfl, by simp only [Step.getMap, C08.WF]; exact ⟨by omega, by omega, hs0, trivial⟩⟩
+  | replaceAround f t gf gt sl ins b =>
+    obtain ⟨hwf, hins, hg1, hg2, hg3⟩ := hok
+    exact ⟨rfl, by
+      simp only [Step.getMap, C08.WF]
+      exact ⟨by omega, by omega, by omega, by omega, by omega, by omega, trivial⟩⟩
+  | _ => exact ⟨rfl, trivial⟩
+
+/-- the gap of a replace-around step is not empty, or nothing is deleted after it: the step's two
+    ranges do not touch in the way that hides a deletion from the right side -/
+def GapSep : Step → Prop
+  | .replaceAround _ t gf gt _ _ _ => gf < gt ∨ gt = t
+  | _ => True
+
+theorem step_noTouch (st : Step) (hok : AroundWF st) (hsep : GapSep st) : st.getMap.noTouch = true := by
+  cases st with
+  | replace f t sl b =>
+    simp only [Step.getMap, StepMap.noTouch, List.all_cons, List.all_nil, Bool.and_true,
+      Bool.or_eq_true, decide_eq_true_eq]
+    omega
+  | replaceAround f t gf gt sl ins b =>
+    obtain ⟨_, _, hg1, hg2, hg3⟩ := hok
+    simp only [GapSep] at hsep
+    simp only [Step.getMap, StepMap.noTouch, List.all_cons, List.all_nil, Bool.and_true,
+      Bool.and_eq_true, Bool.or_eq_true, decide_eq_true_eq]
+    omega
+  | _ => rfl
+
+/-- **one step, both sides**: for a successfully applied step of any kind,
+    `get_map().map_result(pos, assoc).deleted` is true iff the token on the asked side of `pos` lies
+    in a range the step replaced (never, for the six markup kinds) -/
+theorem step_deleted_iff (S : Schema) (doc doc' : Node) (st : Step) (hok : AroundWF st)
+    (h : S.apply st doc = .ok doc') (p a : Int) (hside : a < 0 ∨ GapSep st) :
+    (st.getMap.mapResult p a).deleted = true ↔ ¬ outside st.getMap (sideTok a p) := by
+  obtain ⟨hinv, hwf⟩ := step_map_wf S doc doc' st hok h
+  exact deleted_iff_covered _ hinv hwf p a (hside.imp id (step_noTouch st hok))
+
+/-- **replace step, the flag in the step's own coordinates**: `deleted` is true exactly for
+    `from < pos ≤ to` on the left side and for `from ≤ pos < to` on the right side -/
+theorem replace_deleted_rule (S : Schema) (doc doc' : Node) (f t : Nat) (sl : Slice) (b : Bool)
+    (h : S.apply (.replace f t sl b) doc = .ok doc') (p a : Int) :
+    ((Step.replace f t sl b).getMap.mapResult p a).deleted = true ↔
+      if a < 0 then (f : Int) < p ∧ p ≤ t else (f : Int) ≤ p ∧ p < t := by
+  rw [step_deleted_iff S doc doc' (.replace f t sl b) trivial h p a (.inr trivial)]
+  simp only [outside, Step.getMap, List.mem_singleton, forall_eq, sideTok]
+  split <;> omega
+
+/-- **replace-around step, the flag in the step's own coordinates**: the two replaced stretches
+    `[from, gapFrom)` and `[gapTo, to)`, read on the asked side -/
+theorem replaceAround_deleted_rule (S : Schema) (doc doc' : Node) (f t gf gt : Nat) (sl : Slice) (ins : Nat)
+    (b : Bool) (hok : AroundWF (.replaceAround f t gf gt sl ins b))
+    (h : S.apply (.replaceAround f t gf gt sl ins b) doc = .ok doc') (p a : Int)
+    (hside : a < 0 ∨ gf < gt ∨ gt = t) :
+    ((Step.replaceAround f t gf gt sl ins b).getMap.mapResult p a).deleted = true ↔
+      if a < 0 then ((f : Int) < p ∧ p ≤ gf) ∨ ((gt : Int) < p ∧ p ≤ t)
+      else ((f : Int) ≤ p ∧ p < gf) ∨ ((gt : Int) ≤ p ∧ p < t) := by
+  rw [step_deleted_iff S doc doc' (.replaceAround f t gf gt sl ins b) hok h p a hside]
+  simp only [outside, Step.getMap, List.mem_cons, List.not_mem_nil, or_false, forall_eq_or_imp, forall_eq,
+    sideTok]
+  split <;> omega
+
+/-- the right-side guard is needed: a replace-around step with an empty gap (`gapFrom = gapTo`)
+    that deletes content after the gap has the ranges `(2, 1, 0)` and `(3, 2, 0)`; position 3 is
+    caught at the *end* of the first range, so `map_result(3, 1).deleted` is false although the
+    token after position 3 is deleted -/
+theorem deleted_right_needs_noTouch :
+    let m := (Step.replaceAround 2 5 3 3 ⟨[], 0, 0⟩ 0 false).getMap
+    C08.WF 0 m.ranges ∧ m.noTouch = false ∧ ¬ outside m (sideTok 1 3) ∧ (m.mapResult 3 1).deleted = false := by
+  refine ⟨by simp [Step.getMap, C08.WF, Slice.size, fsize], by decide, ?_, by decide⟩
+  intro h
+  have := h (3, 2, 0) (by simp [Step.getMap, Slice.size])
+  simp [sideTok] at this
+
+/-- `coveredFold` on the left side is the negation of `OutsideAllL` -/
+theorem coveredFold_left_false_iff : ∀ (ms : List StepMap) (p : Int),
+    coveredFold ms (-1) p = false ↔ OutsideAllL ms p
+  | [], _ => by simp [coveredFold, OutsideAllL]
+  | m :: ms, p => by
+    rw [coveredFold, Bool.or_eq_false_iff, covers_false_iff_outside, coveredFold_left_false_iff ms]
+    simp [OutsideAllL, sideTok]
+
+/-- … and on the right side of `OutsideAll` -/
+theorem coveredFold_right_false_iff : ∀ (ms : List StepMap) (p : Int),
+    coveredFold ms 1 p = false ↔ OutsideAll ms p
+  | [], _ => by simp [coveredFold, OutsideAll]
+  | m :: ms, p => by
+    rw [coveredFold, Bool.or_eq_false_iff, covers_false_iff_outside, coveredFold_right_false_iff ms]
+    simp [OutsideAll, sideTok]
+
+/-- **a whole mapping, both sides**: `Mapping.map_result(pos, assoc)` of a mapping over stored,
+    sorted maps returns the folded position, and its `deleted` flag is true iff for some map of the
+    history the token on the asked side of the position — mapped along to that map — lies in a range
+    that map replaced -/
+theorem mapping_deleted_iff_covered (ms : List StepMap)
+    (hms : ∀ m ∈ ms, m.inverted = false ∧ C08.WF 0 m.ranges) (p a : Int)
+    (hside : a < 0 ∨ ∀ m ∈ ms, m.noTouch = true) :
+    ∃ r, (Mapping.ofMaps ms).mapResult p a = some r ∧ r.pos = mapFold ms a p ∧
+      r.deleted = coveredFold ms a p := by
+  refine ⟨_, ofMaps_mapResult ms p a, rfl, ?_⟩
+  have h := ofMaps_deleted ms p a
+  rw [ofMaps_mapResult, Option.map_some, Option.some.injEq] at h
+  rw [h]
+  exact deletedFold_eq_covered ms (fun m hm => ⟨(hms m hm).1, (wf_iff_rwf _ _).1 (hms m hm).2⟩) a p hside
+
+/-- every map recorded by a run has a property that every successfully applied step's map has -/
+theorem run_maps_all (S : Schema) (P : StepMap → Prop) : ∀ (sts : List Step) (tr : Tr),
+    (∀ st ∈ sts, ∀ d d', S.apply st d = .ok d' → P st.getMap) → (∀ m ∈ tr.maps, P m) →
+    ∀ m ∈ (tr.run S sts).maps, P m
+  | [], tr, _, h0 => by simpa [Tr.run] using h0
+  | st :: sts, tr, hst, h0 => by
+    have hrun : tr.run S (st :: sts) = (tr.maybeStep S st).run S sts := by simp [Tr.run]
+    rw [hrun]
+    refine run_maps_all S P sts _ (fun s hs => hst s (List.mem_cons_of_mem _ hs)) ?_
+    unfold Tr.maybeStep
+    split
+    · next d hd =>
+      intro m hm
+      simp only [Tr.addStep, List.mem_append, List.mem_singleton] at hm
+      rcases hm with hm | rfl
+      · exact h0 m hm
+      · exact hst st List.mem_cons_self _ _ hd
+    · exact h0
+
+/-- the maps a transform records are stored and sorted -/
+theorem transform_maps_wf (S : Schema) (doc : Node) (sts : List Step) (hok : ∀ st ∈ sts, AroundWF st) :
+    ∀ m ∈ ((Tr.init doc).run S sts).maps, m.inverted = false ∧ C08.WF 0 m.ranges :=
+  run_maps_all S _ sts (Tr.init doc) (fun st hst d d' h => step_map_wf S d d' st (hok st hst) h)
+    (by simp [Tr.init])
+
+/-- **Transform level, the flag**: `tr.mapping.map_result(pos, assoc)` returns the position folded
+    through the recorded maps with the asked side, and `.deleted` is true iff some recorded step
+    replaced the token on the asked side of the position as mapped along to that step.  By
+    `coveredFold_left_false_iff` / `coveredFold_right_false_iff` a false flag is exactly the
+    hypothesis `OutsideAllL` / `OutsideAll` of the same-content theorems. -/
+theorem transform_deleted_iff_covered (S : Schema) (doc : Node) (sts : List Step)
+    (hok : ∀ st ∈ sts, AroundWF st) (p a : Int) (hside : a < 0 ∨ ∀ st ∈ sts, GapSep st) :
+    ∃ r, (Mapping.ofMaps ((Tr.init doc).run S sts).maps).mapResult p a = some r ∧
+      r.pos = mapFold ((Tr.init doc).run S sts).maps a p ∧
+      r.deleted = coveredFold ((Tr.init doc).run S sts).maps a p := by
+  refine mapping_deleted_iff_covered _ (transform_maps_wf S doc sts hok) p a ?_
+  rcases hside with h | h
+  · exact .inl h
+  · exact .inr (run_maps_all S _ sts (Tr.init doc)
+      (fun st hst d d' _ => step_noTouch st (hok st hst) (h st hst)) (by simp [Tr.init]))
+
+/-- **not reported deleted on the left ⇒ the token before is kept**: if `tr.mapping.map_result(p, -1)`
+    does not report `deleted`, the token before the mapped position is the token that was before `p`
+    (same structure and text; the same token when only replace-family steps were recorded) -/
+theorem transform_not_deleted_left_same_content (S : Schema) (doc : Node) (sts : List Step)
+    (hok : ∀ st ∈ sts, AroundWF st) (p : Nat) (hp0 : 0 < p) (hp : p ≤ fsize doc.kids)
+    (hnd : ((Mapping.ofMaps ((Tr.init doc).run S sts).maps).mapResult p (-1)).map MapResult.deleted
+      = some false) :
+    ∃ q : Nat, 0 < q ∧ (Mapping.ofMaps ((Tr.init doc).run S sts).maps).map p (-1) = some (q : Int) ∧
+      q ≤ fsize ((Tr.init doc).run S sts).doc.kids ∧
+      ((ftoks ((Tr.init doc).run S sts).doc.kids)[q - 1]?).map Tok.shape =
+        ((ftoks doc.kids)[p - 1]?).map Tok.shape ∧
+      ((∀ st ∈ ((Tr.init doc).run S sts).steps, IsReplaceFamily st) →
+        (ftoks ((Tr.init doc).run S sts).doc.kids)[q - 1]? = (ftoks doc.kids)[p - 1]?) := by
+  obtain ⟨r, hr, _, hdel⟩ := transform_deleted_iff_covered S doc sts hok p (-1) (.inl (by decide))
+  rw [hr, Option.map_some, Option.some.injEq, hdel] at hnd
+  exact transform_mapped_position_same_content_left S doc sts hok p hp0 hp
+    ((coveredFold_left_false_iff _ _).1 hnd)
+
+/-- **not reported deleted on the right ⇒ the token after is kept** (with the side conditions of the
+    right-side theorems) -/
+theorem transform_not_deleted_right_same_content (S : Schema) (doc : Node) (sts : List Step)
+    (hok : ∀ st ∈ sts, AroundOK st) (hsep : ∀ st ∈ sts, GapSep st) (p : Nat) (hp : p ≤ fsize doc.kids)
+    (hnd : ((Mapping.ofMaps ((Tr.init doc).run S sts).maps).mapResult p 1).map MapResult.deleted
+      = some false) :
+    ∃ q : Nat, (Mapping.ofMaps ((Tr.init doc).run S sts).maps).map p 1 = some (q : Int) ∧
+      q ≤ fsize ((Tr.init doc).run S sts).doc.kids ∧
+      (((ftoks ((Tr.init doc).run S sts).doc.kids).drop q).head?).map Tok.shape =
+        (((ftoks doc.kids).drop p).head?).map Tok.shape ∧
+      ((∀ st ∈ ((Tr.init doc).run S sts).steps, IsReplaceFamily st) →
+        ((ftoks ((Tr.init doc).run S sts).doc.kids).drop q).head? = ((ftoks doc.kids).drop p).head?) := by
+  obtain ⟨r, hr, _, hdel⟩ := transform_deleted_iff_covered S doc sts (fun st hst => (hok st hst).toWF) p 1
+    (.inr hsep)
+  rw [hr, Option.map_some, Option.some.injEq, hdel] at hnd
+  exact transform_mapped_position_same_content S doc sts hok p hp
+    ((coveredFold_right_false_iff _ _).1 hnd)
+
+/-! ### monotonicity through histories -/
+
+/-- **a whole mapping is monotone** (same association side; from `C08.map_mono` map by map) -/
+theorem mapping_map_mono (ms : List StepMap) (hwf : ∀ m ∈ ms, C08.WF 0 m.ranges) (a p q : Int)
+    (hpq : p ≤ q) : mapFold ms a p ≤ mapFold ms a q := by
+  induction ms generalizing p q with
+  | nil => exact hpq
+  | cons m ms ih =>
+    rw [mapFold_cons, mapFold_cons]
+    exact ih (fun x hx => hwf x (List.mem_cons_of_mem _ hx)) _ _
+      (C08.map_mono m (hwf m List.mem_cons_self) p q a hpq)
+
+/-- **the left image never lies right of the right image**, map by map and for a whole mapping -/
+theorem mapping_left_le_right (ms : List StepMap) (hwf : ∀ m ∈ ms, C08.WF 0 m.ranges) (p : Int) :
+    mapFold ms (-1) p ≤ mapFold ms 1 p :=
+  mapFold_assoc_mono ms (fun m hm => (wf_iff_rwf _ _).1 (hwf m hm)) (-1) 1 p (by decide)
+
+theorem stepMap_left_le_right (m : StepMap) (hwf : C08.WF 0 m.ranges) (p : Int) :
+    m.map p (-1) ≤ m.map p 1 :=
+  StepMap.map_assoc_mono m ((wf_iff_rwf _ _).1 hwf) p (-1) 1 (by decide)
+
+/-- **Transform level**: `tr.mapping.map` is monotone in the position for either side, and the
+    `assoc = -1` image of a position is never right of its `assoc = 1` image -/
+theorem transform_mapping_mono (S : Schema) (doc : Node) (sts : List Step)
+    (hok : ∀ st ∈ sts, AroundWF st) (p q : Int) (hpq : p ≤ q) (a : Int) :
+    ∃ p' q' l r : Int,
+      (Mapping.ofMaps ((Tr.init doc).run S sts).maps).map p a = some p' ∧
+      (Mapping.ofMaps ((Tr.init doc).run S sts).maps).map q a = some q' ∧ p' ≤ q' ∧
+      (Mapping.ofMaps ((Tr.init doc).run S sts).maps).map p (-1) = some l ∧
+      (Mapping.ofMaps ((Tr.init doc).run S sts).maps).map p 1 = some r ∧ l ≤ r := by
+  have hwf : ∀ m ∈ ((Tr.init doc).run S sts).maps, C08.WF 0 m.ranges :=
+    fun m hm => (transform_maps_wf S doc sts hok m hm).2
+  exact ⟨_, _, _, _, mapping_map_eq_mapFold _ p a, mapping_map_eq_mapFold _ q a,
+    mapping_map_mono _ hwf a p q hpq, mapping_map_eq_mapFold _ p (-1), mapping_map_eq_mapFold _ p 1,
+    mapping_left_le_right _ hwf p⟩
+
+/-! ### non-vacuity -/
+
+/-- a history of two maps: delete `[2, 4)`, then insert 3 tokens at 1.  Position 5 (token 4 before
+    it) is outside on the left all the way: it goes to 3, then to 6 -/
+example : OutsideAllL [⟨[(2, 2, 0)], false⟩, ⟨[(1, 0, 3)], false⟩] 5 ∧
+    mapFold [⟨[(2, 2, 0)], false⟩, ⟨[(1, 0, 3)], false⟩] (-1) 5 = 6 := by
+  refine ⟨?_, by decide⟩
+  have e : (StepMap.mk [(2, 2, 0)] false).map 5 (-1) = 3 := by decide
+  simp [OutsideAllL, outside, e]
+
+/-- the two sides differ through a history: position 1 sits at the later insertion point -/
+example :
+    let ms : List StepMap := [⟨[(2, 2, 0)], false⟩, ⟨[(1, 0, 3)], false⟩]
+    mapFold ms (-1) 1 = 1 ∧ mapFold ms 1 1 = 4 ∧
+    (Mapping.ofMaps ms).map 1 (-1) = some 1 ∧ (Mapping.ofMaps ms).map 1 1 = some 4 ∧
+    -- position 3 is inside the deleted range: deleted on both sides
+    ((Mapping.ofMaps ms).mapResult 3 (-1)).map MapResult.deleted = some true ∧
+    ((Mapping.ofMaps ms).mapResult 3 1).map MapResult.deleted = some true ∧
+    coveredFold ms (-1) 3 = true ∧ coveredFold ms 1 3 = true ∧
+    -- position 4, the end of the deleted range: deleted before it, kept after it
+    ((Mapping.ofMaps ms).mapResult 4 (-1)).map MapResult.deleted = some true ∧
+    ((Mapping.ofMaps ms).mapResult 4 1).map MapResult.deleted = some false ∧
+    coveredFold ms (-1) 4 = true ∧ coveredFold ms 1 4 = false := by
+  decide
+
+/-- a real step with a non-empty gap satisfies the right-side guard; the hypotheses of
+    `step_deleted_iff` are satisfiable for both sides -/
+example : AroundWF (Step.replaceAround 1 6 2 5 ⟨[.elem 0 [] [] []], 0, 0⟩ 1 true) ∧
+    GapSep (Step.replaceAround 1 6 2 5 ⟨[.elem 0 [] [] []], 0, 0⟩ 1 true) := by
+  refine ⟨⟨by decide, by decide, by decide⟩, .inl (by decide)⟩
+
+/-! ### the side conditions as executable guards (evaluated on the real steps by the harness) -/
+
+theorem aroundWF_of_guard (st : Step) (h : aroundWFB st = true) : AroundWF st := by
+  cases st with
+  | replaceAround f t gf gt sl ins b =>
+    simp only [aroundWFB, StepWF, StepOrdered, Bool.and_eq_true, decide_eq_true_eq] at h
+    exact ⟨h.1.1, h.1.2, h.2.1.1, h.2.1.2, h.2.2⟩
+  | _ => trivial
+
+theorem aroundOK_of_guard (st : Step) (h : aroundOKB st = true) : AroundOK st := by
+  cases st with
+  | replaceAround f t gf gt sl ins b =>
+    simp only [aroundOKB, Bool.and_eq_true, Bool.or_eq_true, decide_eq_true_eq] at h
+    obtain ⟨hwf, hwf2, hord⟩ := aroundWF_of_guard _ h.1
+    exact ⟨hwf, hwf2, hord, by omega⟩
+  | _ => trivial
+
+theorem gapSep_iff_guard (st : Step) : gapSepB st = true ↔ GapSep st := by
+  cases st <;> simp [gapSepB, GapSep]
+
+/-! ### the side conditions hold for the replace-around steps the structure operations build -/
+
+/-- `set_node_markup` / `set_block_type`: the step built for a non-leaf node spanning `[s, e)`
+    (`s + 2 ≤ e`: an opening and a closing token) meets `AroundOK` -/
+theorem retypeStep_aroundOK (s e : Nat) (newNode : Node) (hse : s + 2 ≤ e) (hsz : 1 ≤ newNode.size) :
+    AroundOK (retypeStep s e newNode) := by
+  refine ⟨by simp [Slice.wf], ?_, ⟨by omega, by omega, by omega⟩, .inr (.inl (by omega))⟩
+  simp only [Slice.size, fsize]
+  omega
+
+/-- the content `wrap` builds has at least one token per wrapper -/
+theorem wrapContent_size (S : Schema) : ∀ (ws : List (TypeId × Attrs)) (content : List Node),
+    wrapContent S ws = .ok content → ws.length ≤ fsize content
+  | [], content, h => by simp [wrapContent] at h; subst h; simp
+  | (ty, given) :: rest, content, h => by
+    rw [wrapContent] at h
+    cases hr : wrapContent S rest with
+    | error e => rw [hr] at h; simp at h
+    | ok inner =>
+      rw [hr] at h
+      have ih := wrapContent_size S rest inner hr
+      simp only at h
+      split at h
+      · simp at h
+      · split at h
+        · simp at h
+        · cases ha : computeAttrs (S.nodeType ty).attrs given with
+          | error e => rw [ha] at h; simp at h
+          | ok a =>
+            rw [ha] at h
+            simp only at h
+            split at h
+            · split at h
+              · rename_i hemp
+                simp only [Except.ok.injEq] at h
+                subst h
+                have : inner = [] := by simpa using hemp
+                subst this
+                simp only [fsize, Node.size, List.length_cons] at ih ⊢
+                omega
+              · simp at h
+            · simp only [Except.ok.injEq] at h
+              subst h
+              simp only [fsize, Node.size, List.length_cons] at ih ⊢
+              omega
+
+/-- `wrap`: the step built for a non-empty node range (`start < end`) meets `AroundOK` -/
+theorem wrapStepR_aroundOK (S : Schema) (f t : RPos) (depth : Nat) (wrappers : List (TypeId × Attrs))
+    (st : Step) (h : wrapStepR S f t depth wrappers = .ok st)
+    (hse : ∀ s e, f.before (depth + 1) = some s → t.after (depth + 1) = some e → s < e) :
+    AroundOK st := by
+  unfold wrapStepR at h
+  cases hc : wrapContent S wrappers with
+  | error e => rw [hc] at h; simp at h
+  | ok content =>
+    rw [hc] at h
+    simp only at h
+    cases hb : f.before (depth + 1) with
+    | none => rw [hb] at h; simp at h
+    | some s =>
+      cases ha : t.after (depth + 1) with
+      | none => rw [hb, ha] at h; simp at h
+      | some e =>
+        rw [hb, ha] at h
+        simp only [Except.ok.injEq] at h
+        subst h
+        have hlt := hse s e hb ha
+        have hsz := wrapContent_size S wrappers content hc
+        refine ⟨by simp [Slice.wf], ?_, ⟨Nat.le_refl _, by omega, Nat.le_refl _⟩, .inl hlt⟩
+        simp only [Slice.size]
+        omega
+
+/-- `lift`: the step built for a non-empty node range of a resolved pair of positions meets
+    `AroundOK` (the two halves of its slice are the nests of closed and re-opened ancestors) -/
+theorem liftStepR_aroundOK (doc : Node) (a b depth target : Nat) (f t : RPos) (st : Step)
+    (hf : doc.resolve a = some f) (ht : doc.resolve b = some t) (hdoc : doc.isLeaf = false)
+    (hdf : depth ≤ f.depth) (hdt : depth ≤ t.depth)
+    (hb : liftStepR f t depth target = .ok st)
+    (hse : ∀ s e, f.before (depth + 1) = some s → t.after (depth + 1) = some e → s < e) :
+    AroundOK st := by
+  unfold liftStepR at hb
+  cases hgs : f.before (depth + 1) with
+  | none => simp [hgs] at hb
+  | some gs =>
+  cases hge : t.after (depth + 1) with
+  | none => simp [hgs, hge] at hb
+  | some ge =>
+  simp only [hgs, hge] at hb
+  have hlt := hse gs ge hgs hge
+  have nL := liftSide_nest f.node (fun d => decide (0 < f.index d)) target (depth - target) [] 0 0 false
+    (fun d h1 h2 => path_node_elem hf hdoc d (by omega)) .nil
+  have nR := liftSide_nest t.node (fun d => decide (t.afterT (d + 1) < t.end_ d)) target (depth - target)
+    [] 0 0 false (fun d h1 h2 => path_node_elem ht hdoc d (by omega)) .nil
+  generalize liftSide f.node (fun d => decide (0 < f.index d)) target (depth - target) [] 0 0 false = L at hb nL
+  generalize liftSide t.node (fun d => decide (t.afterT (d + 1) < t.end_ d)) target (depth - target)
+    [] 0 0 false = R at hb nR
+  obtain ⟨before, oS, mL⟩ := L
+  obtain ⟨after, oE, mR⟩ := R
+  simp only [Except.ok.injEq] at hb nL nR
+  subst hb
+  refine ⟨nests_wf nL nR, ?_, ⟨Nat.sub_le _ _, by omega, Nat.le_add_right _ _⟩, .inl hlt⟩
+  rw [nests_size nL nR, nL.fsize]
+  omega
+
+/-! ### the size delta for every step kind and along a history -/
+
+/-- **every step kind**: the document size changes by the sum of (new − old) over the map's ranges
+    (no side condition on the gap beyond its position: the touching-empty-gap shape is fine here) -/
+theorem size_delta_every_step (S : Schema) (doc doc' : Node) (st : Step) (hok : AroundWF st)
+    (h : S.apply st doc = .ok doc') :
+    (fsize doc'.kids : Int) - fsize doc.kids = mapDelta st.getMap := by
+  have mk : (∀ f t sl b, st ≠ .replace f t sl b) → (∀ f t gf gt sl i b, st ≠ .replaceAround f t gf gt sl i b) →
+      (fsize doc'.kids : Int) - fsize doc.kids = mapDelta st.getMap := by
+    intro hk hk'
+    obtain ⟨hm, hsh, _⟩ := markup_steps_empty_map S doc doc' st hk hk' h
+    have hlen : fsize doc'.kids = fsize doc.kids := by
+      have := congrArg List.length hsh
+      simpa [ftoks_length] using this
+    rw [hm, hlen]
+    simp [mapDelta]
+  cases st with
+  | replace f t sl b => exact (replace_map_faithful S doc doc' f t sl b h).1
+  | replaceAround f t gf gt sl ins b =>
+    obtain ⟨hwf, hins, hg⟩ := hok
+    obtain ⟨htoks, htl, _⟩ := apply_replaceAround_toks S doc doc' f t gf gt sl ins b hwf hins hg h
+    obtain ⟨hg1, hg2, hg3⟩ := hg
+    have hlen := Slice.toks_length_int sl hwf
+    have := congrArg List.length htoks
+    simp only [List.length_append, List.length_take, List.length_drop, ftoks_length] at this
+    simp only [Step.getMap, mapDelta, List.map_cons, List.map_nil, List.sum_cons, List.sum_nil]
+    omega
+  | addMark f t m => exact mk (by intros; simp) (by intros; simp)
+  | removeMark f t m => exact mk (by intros; simp) (by intros; simp)
+  | addNodeMark pos m => exact mk (by intros; simp) (by intros; simp)
+  | removeNodeMark pos m => exact mk (by intros; simp) (by intros; simp)
+  | attr pos n v => exact mk (by intros; simp) (by intros; simp)
+  | docAttr n v => exact mk (by intros; simp) (by intros; simp)
+
+/-- Σ of the deltas of a list of maps -/
+def mapDeltaAll (ms : List StepMap) : Int := (ms.map mapDelta).sum
+
+theorem run_size_delta (S : Schema) : ∀ (sts : List Step) (tr : Tr), (∀ st ∈ sts, AroundWF st) →
+    ∃ new : List StepMap, (tr.run S sts).maps = tr.maps ++ new ∧
+      (fsize (tr.run S sts).doc.kids : Int) - fsize tr.doc.kids = mapDeltaAll new
+  | [], tr, _ => ⟨[], by simp [Tr.run], by simp [Tr.run, mapDeltaAll]⟩
+  | st :: sts, tr, hok => by
+    have hok' : ∀ s ∈ sts, AroundWF s := fun s hs => hok s (List.mem_cons_of_mem _ hs)
+    have hrun : tr.run S (st :: sts) = (tr.maybeStep S st).run S sts := by simp [Tr.run]
+    rw [hrun]
+    cases happ : S.apply st tr.doc with
+    | error e =>
+      have : tr.maybeStep S st = tr := by simp [Tr.maybeStep, happ]
+      rw [this]
+      exact run_size_delta S sts tr hok'
+    | ok d1 =>
+      have h1 : tr.maybeStep S st = tr.addStep st d1 := by simp [Tr.maybeStep, happ]
+      rw [h1]
+      obtain ⟨new, e1, e2⟩ := run_size_delta S sts (tr.addStep st d1) hok'
+      have hd := size_delta_every_step S tr.doc d1 st (hok st List.mem_cons_self) happ
+      refine ⟨st.getMap :: new, by simpa [Tr.addStep] using e1, ?_⟩
+      have hdoc : (tr.addStep st d1).doc = d1 := rfl
+      rw [hdoc] at e2
+      simp only [mapDeltaAll, List.map_cons, List.sum_cons] at e2 ⊢
+      omega
+
+/-- **Transform level**: the final document's size differs from the first document's by the sum of
+    the deltas of all recorded maps -/
+theorem transform_size_delta (S : Schema) (doc : Node) (sts : List Step) (hok : ∀ st ∈ sts, AroundWF st) :
+    (fsize ((Tr.init doc).run S sts).doc.kids : Int) - fsize doc.kids =
+      mapDeltaAll ((Tr.init doc).run S sts).maps := by
+  obtain ⟨new, e1, e2⟩ := run_size_delta S sts (Tr.init doc) hok
+  replace e1 : ((Tr.init doc).run S sts).maps = new := by simpa [Tr.init] using e1
+  rw [e1]
+  simpa [Tr.init] using e2
+
+/-! ### the two sides agree on where a surviving token is -/
+
+/-- a token outside the map's replaced ranges keeps width one: the left image of the position after
+    it is one past the right image of the position before it -/
+def UnitWidth (m : StepMap) : Prop := ∀ i : Int, outside m i → m.map (i + 1) (-1) = m.map i 1 + 1
+
+/-- **every step kind**: the map of a successfully applied step (with the side condition of
+    `replaceAround_map_faithful`) gives every surviving token width one — the `assoc = 1` image of the
+    position before it and the `assoc = -1` image of the position after it delimit exactly that token -/
+theorem step_unit_width (S : Schema) (doc doc' : Node) (st : Step) (hok : AroundOK st)
+    (h : S.apply st doc = .ok doc') : UnitWidth st.getMap := by
+  intro i hout
+  cases st with
+  | replace f t sl b =>
+    obtain ⟨_, hft, _, _⟩ := apply_replace_facts S doc doc' f t sl b h
+    have := hout ((f : Int), (t : Int) - f, sl.size) (by simp [Step.getMap])
+    simp only at this
+    exact map_one_unit _ _ _ _ (by omega) (by omega)
+  | replaceAround f t gf gt sl ins b =>
+    obtain ⟨_, hins, ⟨hg1, hg2, hg3⟩, hne⟩ := hok
+    have a := hout ((f : Int), (gf : Int) - f, (ins : Int)) (by simp [Step.getMap])
+    have b := hout ((gt : Int), (t : Int) - gt, sl.size - ins) (by simp [Step.getMap])
+    simp only at a b
+    exact map_two_unit _ _ _ _ _ _ _ (by omega) (by omega) (by omega) (by omega) ⟨by omega, by omega⟩
+  | _ => simp [Step.getMap, map_empty]
+
+/-- (map-level lemma behind `hist_surviving_token_width` / `transform_surviving_token_width`)
+    along a history of such maps the left chain of `i + 1` and the right chain of `i` stay one apart
+    for as long as the token survives; so "the token after `i` is never replaced" (`OutsideAll`) and
+    "the token before `i + 1` is never replaced" (`OutsideAllL`) are the same condition -/
+theorem outsideAll_iff_left : ∀ (ms : List StepMap), (∀ m ∈ ms, UnitWidth m) → ∀ (i : Int),
+    (OutsideAll ms i ↔ OutsideAllL ms (i + 1)) ∧
+    (OutsideAll ms i → mapFold ms (-1) (i + 1) = mapFold ms 1 i + 1)
+  | [], _, _ => ⟨Iff.rfl, fun _ => rfl⟩
+  | m :: ms, hu, i => by
+    have hu' : ∀ x ∈ ms, UnitWidth x := fun x hx => hu x (List.mem_cons_of_mem _ hx)
+    have e : i + 1 - 1 = i := by omega
+    simp only [OutsideAll, OutsideAllL, mapFold_cons, e]
+    refine ⟨⟨fun ⟨h1, h2⟩ => ⟨h1, ?_⟩, fun ⟨h1, h2⟩ => ⟨h1, ?_⟩⟩, fun ⟨h1, h2⟩ => ?_⟩
+    · rw [hu m List.mem_cons_self i h1]
+      exact ((outsideAll_iff_left ms hu' _).1).1 h2
+    · rw [hu m List.mem_cons_self i h1] at h2
+      exact ((outsideAll_iff_left ms hu' _).1).2 h2
+    · rw [hu m List.mem_cons_self i h1]
+      exact (outsideAll_iff_left ms hu' _).2 h2
+
+/-- **Transform level**: a token of the first document that no recorded step replaces occupies
+    exactly `[q, q + 1)` in the final document, where `q = tr.mapping.map(i, 1)` and
+    `q + 1 = tr.mapping.map(i + 1, -1)` — the two association sides agree on where it is -/
+theorem transform_surviving_token_width (S : Schema) (doc : Node) (sts : List Step)
+    (hok : ∀ st ∈ sts, AroundOK st) (i : Int) (hout : OutsideAll ((Tr.init doc).run S sts).maps i) :
+    OutsideAllL ((Tr.init doc).run S sts).maps (i + 1) ∧
+    ∃ q : Int, (Mapping.ofMaps ((Tr.init doc).run S sts).maps).map i 1 = some q ∧
+      (Mapping.ofMaps ((Tr.init doc).run S sts).maps).map (i + 1) (-1) = some (q + 1) := by
+  have hu : ∀ m ∈ ((Tr.init doc).run S sts).maps, UnitWidth m :=
+    run_maps_all S _ sts (Tr.init doc) (fun st hst d d' h => step_unit_width S d d' st (hok st hst) h)
+      (by simp [Tr.init])
+  obtain ⟨h1, h2⟩ := outsideAll_iff_left _ hu i
+  refine ⟨h1.1 hout, _, mapping_map_eq_mapFold _ i 1, ?_⟩
+  rw [mapping_map_eq_mapFold, h2 hout]
+
+/-- the side condition is needed: the touching-empty-gap map `(3, 0, 1), (3, 0, 1)` (a replace-around
+    step `3 3 3 3` inserting one token on either side of its empty gap) gives the surviving token 3
+    the images `4` and `6` -/
+example : let m : StepMap := ⟨[(3, 0, 1), (3, 0, 1)], false⟩
+    outside m 3 ∧ m.map 3 1 = 4 ∧ m.map 4 (-1) = 6 := by
+  refine ⟨?_, by decide, by decide⟩
+  intro r hr
+  simp only [List.mem_cons, List.not_mem_nil, or_false] at hr
+  rcases hr with rfl | rfl <;> simp
+
+/-! ### histories as such: hypotheses on the recorded steps only -/
+
+/-- a history: steps applied one after the other, each successfully -/
+inductive Hist (S : Schema) : Node → List Step → Node → Prop
+  | nil (d : Node) : Hist S d [] d
+  | cons {d d1 d' : Node} {st : Step} {sts : List Step} :
+      S.apply st d = .ok d1 → Hist S d1 sts d' → Hist S d (st :: sts) d'
+
+/-- what a transform records over any list of attempted steps is a history from its document -/
+theorem run_hist (S : Schema) : ∀ (sts : List Step) (tr : Tr),
+    ∃ new : List Step, (tr.run S sts).steps = tr.steps ++ new ∧
+      (tr.run S sts).maps = tr.maps ++ new.map Step.getMap ∧ Hist S tr.doc new (tr.run S sts).doc
+  | [], tr => ⟨[], by simp [Tr.run], by simp [Tr.run], by simpa [Tr.run] using Hist.nil tr.doc⟩
+  | st :: sts, tr => by
+    have hrun : tr.run S (st :: sts) = (tr.maybeStep S st).run S sts := by simp [Tr.run]
+    rw [hrun]
+    cases happ : S.apply st tr.doc with
+    | error e =>
+      have : tr.maybeStep S st = tr := by simp [Tr.maybeStep, happ]
+      rw [this]
+      exact run_hist S sts tr
+    | ok d1 =>
+      have h1 : tr.maybeStep S st = tr.addStep st d1 := by simp [Tr.maybeStep, happ]
+      rw [h1]
+      obtain ⟨new, e1, e2, e3⟩ := run_hist S sts (tr.addStep st d1)
+      exact ⟨st :: new, by simpa [Tr.addStep] using e1, by simpa [Tr.addStep] using e2,
+        Hist.cons happ (by simpa [Tr.addStep] using e3)⟩
+
+/-- **any history, right side**: side conditions asked of the history's own steps only -/
+theorem hist_same_after (S : Schema) {d d' : Node} {steps : List Step} (h : Hist S d steps d')
+    (hok : ∀ st ∈ steps, AroundOK st) (p : Nat) (hp : p ≤ fsize d.kids)
+    (hout : OutsideAll (steps.map Step.getMap) p) :
+    SameAfter d d' steps p (mapFold (steps.map Step.getMap) 1 p) := by
+  induction h generalizing p with
+  | nil d =>
+    simp only [List.map_nil, mapFold_nil, SameAfter, Int.toNat_natCast]
+    exact ⟨Int.natCast_nonneg _, hp, trivial, fun _ => trivial⟩
+  | @cons d d1 d' st sts happ _ ih =>
+    simp only [List.map_cons, OutsideAll] at hout
+    obtain ⟨ho1, ho2⟩ := hout
+    obtain ⟨s1, s2, s3, s4⟩ := mapped_position_every_step S d d1 st (hok st List.mem_cons_self) happ p hp ho1
+    have hq : ((st.getMap.map p 1).toNat : Int) = st.getMap.map p 1 := Int.toNat_of_nonneg s1
+    have ih' := ih (fun s hs => hok s (List.mem_cons_of_mem _ hs)) (st.getMap.map p 1).toNat s2
+      (by rw [hq]; exact ho2)
+    rw [hq] at ih'
+    obtain ⟨i1, i2, i3, i4⟩ := ih'
+    rw [List.map_cons, mapFold_cons]
+    refine ⟨i1, i2, i3.trans s3, fun hall => ?_⟩
+    exact (i4 (fun s hs => hall s (List.mem_cons_of_mem _ hs))).trans (s4 (hall st List.mem_cons_self))
+
+/-- **any history, left side** -/
+theorem hist_same_before (S : Schema) {d d' : Node} {steps : List Step} (h : Hist S d steps d')
+    (hok : ∀ st ∈ steps, AroundWF st) (p : Nat) (hp0 : 0 < p) (hp : p ≤ fsize d.kids)
+    (hout : OutsideAllL (steps.map Step.getMap) p) :
+    SameBefore d d' steps p (mapFold (steps.map Step.getMap) (-1) p) := by
+  induction h generalizing p with
+  | nil d =>
+    simp only [List.map_nil, mapFold_nil, SameBefore, Int.toNat_natCast]
+    exact ⟨by omega, hp, trivial, fun _ => trivial⟩
+  | @cons d d1 d' st sts happ _ ih =>
+    simp only [List.map_cons, OutsideAllL] at hout
+    obtain ⟨ho1, ho2⟩ := hout
+    obtain ⟨s1, s2, s3, s4⟩ := mapped_position_every_step_left S d d1 st (hok st List.mem_cons_self) happ
+      p hp0 hp ho1
+    have hq : ((st.getMap.map p (-1)).toNat : Int) = st.getMap.map p (-1) := Int.toNat_of_nonneg (by omega)
+    have ih' := ih (fun s hs => hok s (List.mem_cons_of_mem _ hs)) (st.getMap.map p (-1)).toNat (by omega) s2
+      (by rw [hq]; exact ho2)
+    rw [hq] at ih'
+    obtain ⟨i1, i2, i3, i4⟩ := ih'
+    rw [List.map_cons, mapFold_cons]
+    refine ⟨i1, i2, i3.trans s3, fun hall => ?_⟩
+    exact (i4 (fun s hs => hall s (List.mem_cons_of_mem _ hs))).trans (s4 (hall st List.mem_cons_self))
+
+/-- the maps of a history are stored and sorted, and its size delta is the sum of the maps' deltas -/
+theorem hist_maps_wf_delta (S : Schema) {d d' : Node} {steps : List Step} (h : Hist S d steps d')
+    (hok : ∀ st ∈ steps, AroundWF st) :
+    (∀ m ∈ steps.map Step.getMap, m.inverted = false ∧ C08.WF 0 m.ranges) ∧
+    (fsize d'.kids : Int) - fsize d.kids = mapDeltaAll (steps.map Step.getMap) := by
+  induction h with
+  | nil d => exact ⟨by simp, by simp [mapDeltaAll]⟩
+  | @cons d d1 d' st sts happ _ ih =>
+    obtain ⟨i1, i2⟩ := ih (fun s hs => hok s (List.mem_cons_of_mem _ hs))
+    have hd := size_delta_every_step S d d1 st (hok st List.mem_cons_self) happ
+    refine ⟨?_, ?_⟩
+    · intro m hm
+      simp only [List.map_cons, List.mem_cons] at hm
+      rcases hm with rfl | hm
+      · exact step_map_wf S d d1 st (hok st List.mem_cons_self) happ
+      · exact i1 m hm
+    · simp only [mapDeltaAll, List.map_cons, List.sum_cons] at i2 ⊢
+      omega
+
+/-- **any history**: a token no step of the history replaces occupies exactly
+    `[mapFold … 1 i, mapFold … (-1) (i + 1))`, one position wide; "the token after `i` survives"
+    and "the token before `i + 1` survives" are the same condition -/
+theorem hist_surviving_token_width (S : Schema) {d d' : Node} {steps : List Step} (h : Hist S d steps d')
+    (hok : ∀ st ∈ steps, AroundOK st) (i : Int) :
+    (OutsideAll (steps.map Step.getMap) i ↔ OutsideAllL (steps.map Step.getMap) (i + 1)) ∧
+    (OutsideAll (steps.map Step.getMap) i →
+      mapFold (steps.map Step.getMap) (-1) (i + 1) = mapFold (steps.map Step.getMap) 1 i + 1) := by
+  refine outsideAll_iff_left _ ?_ i
+  clear i
+  induction h with
+  | nil d => simp
+  | @cons d d1 d' st sts happ _ ih =>
+    intro m hm
+    simp only [List.map_cons, List.mem_cons] at hm
+    rcases hm with rfl | hm
+    · exact step_unit_width S d d1 st (hok st List.mem_cons_self) happ
+    · exact ih (fun s hs => hok s (List.mem_cons_of_mem _ hs)) m hm
+
+/-- **Transform level, both sides, side conditions on the recorded steps only** (an attempted step
+    that did not apply is asked nothing): the same-content statements of
+    `transform_mapped_position_same_content` and `…_left` -/
+theorem transform_same_content_recorded (S : Schema) (doc : Node) (sts : List Step) :
+    let tr := (Tr.init doc).run S sts
+    ((∀ st ∈ tr.steps, AroundOK st) → ∀ p : Nat, p ≤ fsize doc.kids → OutsideAll tr.maps p →
+      (Mapping.ofMaps tr.maps).map p 1 = some (mapFold tr.maps 1 p) ∧
+      SameAfter doc tr.doc tr.steps p (mapFold tr.maps 1 p)) ∧
+    ((∀ st ∈ tr.steps, AroundWF st) → ∀ p : Nat, 0 < p → p ≤ fsize doc.kids → OutsideAllL tr.maps p →
+      (Mapping.ofMaps tr.maps).map p (-1) = some (mapFold tr.maps (-1) p) ∧
+      SameBefore doc tr.doc tr.steps p (mapFold tr.maps (-1) p)) := by
+  intro tr
+  obtain ⟨new, e1, e2, e3⟩ := run_hist S sts (Tr.init doc)
+  replace e1 : tr.steps = new := by
+    show ((Tr.init doc).run S sts).steps = new
+    simpa [Tr.init] using e1
+  replace e2 : tr.maps = new.map Step.getMap := by
+    show ((Tr.init doc).run S sts).maps = new.map Step.getMap
+    simpa [Tr.init] using e2
+  replace e3 : Hist S doc new tr.doc := by
+    show Hist S doc new ((Tr.init doc).run S sts).doc
+    simpa [Tr.init] using e3
+  rw [e1, e2]
+  exact ⟨fun hok p hp hout => ⟨mapping_map_eq_mapFold _ p 1, hist_same_after S e3 hok p hp hout⟩,
+    fun hok p hp0 hp hout => ⟨mapping_map_eq_mapFold _ p (-1), hist_same_before S e3 hok p hp0 hp hout⟩⟩
+
+/-! a concrete two-step history through `Tr.run`: the hypotheses of the Transform-level theorems hold
+    and the two sides differ -/
+section Example
+/-- doc(para*), para(text*), text -/
+private def tinyS : Schema :=
+  { nodes := #[
+      { name := "doc", isText := false, isInline := false, isLeaf := false, isAtom := false,
+        inlineContent := false, isolating := false, defining := false, code := false,
+        dfa := #[⟨true, [(1, 0)]⟩], markSet := some [], attrs := [] },
+      { name := "para", isText := false, isInline := false, isLeaf := false, isAtom := false,
+        inlineContent := true, isolating := false, defining := false, code := false,
+        dfa := #[⟨true, [(2, 0)]⟩], markSet := none, attrs := [] },
+      { name := "text", isText := true, isInline := true, isLeaf := true, isAtom := true,
+        inlineContent := false, isolating := false, defining := false, code := false,
+        dfa := #[⟨true, []⟩], markSet := some [], attrs := [] }],
+    marks := #[], top := 0, textTy := 2 }
+
+/-- `<p>ab</p><p>c</p>` -/
+private def tinyDoc : Node :=
+  .elem 0 [] [] [.elem 1 [] [] [.text [97, 98] []], .elem 1 [] [] [.text [99] []]]
+/-- `<p>ax</p><p>c</p>` -/
+private def tinyDoc1 : Node :=
+  .elem 0 [] [] [.elem 1 [] [] [.text [97, 120] []], .elem 1 [] [] [.text [99] []]]
+/-- `<p>ax</p><p>yzc</p>` -/
+private def tinyDoc2 : Node :=
+  .elem 0 [] [] [.elem 1 [] [] [.text [97, 120] []], .elem 1 [] [] [.text [121, 122, 99] []]]
+/-- replace `b` by `x` -/
+private def st1 : Step := .replace 2 3 ⟨[.text [120] []], 0, 0⟩ false
+/-- insert `yz` at the start of the second paragraph -/
+private def st2 : Step := .replace 5 5 ⟨[.text [121, 122] []], 0, 0⟩ false
+
+private theorem tiny_fwd1 : tinyS.apply st1 tinyDoc = .ok tinyDoc1 := by
+  have hv : tinyS.validContent 1 [Node.text [97, 120] []] = true := by decide
+  simp [st1, Schema.apply, Schema.fromReplace, Schema.replace, tinyDoc, replaceKids, inRange,
+    depthAt, Slice.wf, spineL, spineR, outer, atLevel, fcut, fcutLoop, cutText, splitOk, isHigh, isLow,
+    fappend, addNode, Except.map, tinyDoc1, hv]
+
+private theorem tiny_fwd2 : tinyS.apply st2 tinyDoc1 = .ok tinyDoc2 := by
+  have hv : tinyS.validContent 1 [Node.text [121, 122, 99] []] = true := by decide
+  simp [st2, Schema.apply, Schema.fromReplace, Schema.replace, tinyDoc1, replaceKids, inRange,
+    depthAt, Slice.wf, spineL, spineR, outer, atLevel, fcut, fappend, addNode, Except.map, tinyDoc2, hv]
+
+private theorem tiny_run : (Tr.init tinyDoc).run tinyS [st1, st2] =
+    { doc := tinyDoc2, steps := [st1, st2], docs := [tinyDoc, tinyDoc1], maps := [st1.getMap, st2.getMap] } := by
+  simp [Tr.run, Tr.maybeStep, Tr.init, tiny_fwd1, tiny_fwd2, Tr.addStep]
+
+/-- position 6 (after `c`): its preceding token stays outside both steps' ranges on the left side;
+    `tr.mapping.map(6, -1) = 8` and the token before 8 in the final document is the `c` that was
+    before 6.  Position 5 (the later insertion point) goes to 5 on the left, to 7 on the right, and
+    both of its neighbours are kept. -/
+example :
+    (∀ st ∈ [st1, st2], AroundOK st) ∧
+    OutsideAllL ((Tr.init tinyDoc).run tinyS [st1, st2]).maps 6 ∧
+    (Mapping.ofMaps ((Tr.init tinyDoc).run tinyS [st1, st2]).maps).map 6 (-1) = some 8 ∧
+    (ftoks ((Tr.init tinyDoc).run tinyS [st1, st2]).doc.kids)[8 - 1]? = (ftoks tinyDoc.kids)[6 - 1]? ∧
+    OutsideAllL ((Tr.init tinyDoc).run tinyS [st1, st2]).maps 5 ∧
+    OutsideAll ((Tr.init tinyDoc).run tinyS [st1, st2]).maps 5 ∧
+    (Mapping.ofMaps ((Tr.init tinyDoc).run tinyS [st1, st2]).maps).map 5 (-1) = some 5 ∧
+    (Mapping.ofMaps ((Tr.init tinyDoc).run tinyS [st1, st2]).maps).map 5 1 = some 7 := by
+  rw [tiny_run]
+  have e1 : st1.getMap = ⟨[(2, 1, 1)], false⟩ := by decide
+  have e2 : st2.getMap = ⟨[(5, 0, 2)], false⟩ := by decide
+  have m1 : (StepMap.mk [(2, 1, 1)] false).map 6 (-1) = 6 := by decide
+  have m2 : (StepMap.mk [(2, 1, 1)] false).map 5 (-1) = 5 := by decide
+  have m3 : (StepMap.mk [(2, 1, 1)] false).map 5 1 = 5 := by decide
+  simp only [e1, e2]
+  refine ⟨?_, ?_, by decide, by decide, ?_, ?_, by decide, by decide⟩
+  · intro st hst
+    simp only [List.mem_cons, List.not_mem_nil, or_false] at hst
+    rcases hst with rfl | rfl <;> exact trivial
+  · simp [OutsideAllL, outside, m1]
+  · simp [OutsideAllL, outside, m2]
+  · simp [OutsideAll, outside, m3]
+end Example
 
 end PM.C03
